@@ -62,11 +62,31 @@ pub fn pdf(cell: &Cell, x: f64) -> f64 {
     }
 }
 
+/// magnitude of the largest operand of the last addition / subtraction that forms the output x
+/// (location + scale*t for Cauchy / Gumbel / Frechet; min + sqrt(..) or max - sqrt(..) for Triangular)
+pub fn intermediate_magnitude(cell: &Cell, x: f64) -> f64 {
+    let p = &cell.p;
+    match cell.fam {
+        Fam::Cauchy | Fam::Gumbel | Fam::Frechet => p[0].abs().max((x - p[0]).abs()),
+        Fam::Triangular => {
+            if x < p[2] {
+                p[0].abs().max((x - p[0]).abs())
+            } else {
+                p[1].abs().max((p[1] - x).abs())
+            }
+        }
+        _ => x.abs(),
+    }
+}
+
 pub struct ExactOutcome {
     pub single_draw: bool,
     pub d: f64,
     pub bound: f64,
     pub sup_xf: f64,
+    /// the same bound with |x| replaced by the largest magnitude the sampler's final subtraction/addition
+    /// works at (|location| vs |x - location|, |max| vs |max - x|): delimits known finding C13-offset-cancellation
+    pub bound_offset: f64,
     pub at: f64,
     pub distinct_outputs: usize,
     pub bad_outputs: Vec<(u64, String, String)>,
@@ -86,7 +106,7 @@ pub fn run_cell(cell: &Cell, seed: u64) -> Option<ExactOutcome> {
         }
     }
     if !single {
-        return Some(ExactOutcome { single_draw: false, d: 0.0, bound: 0.0, sup_xf: 0.0, at: 0.0, distinct_outputs: 0, bad_outputs: vec![] });
+        return Some(ExactOutcome { single_draw: false, d: 0.0, bound: 0.0, sup_xf: 0.0, bound_offset: 0.0, at: 0.0, distinct_outputs: 0, bad_outputs: vec![] });
     }
     let base = VRng::mix(seed);
     let clones: Vec<(u64, Box<dyn crate::families::Sampler>)> = (0..64u64).map(|b| (b, s.clone_box())).collect();
@@ -135,6 +155,7 @@ pub fn run_cell(cell: &Cell, seed: u64) -> Option<ExactOutcome> {
     let mut d = 0.0f64;
     let mut at = f64::NAN;
     let mut sup_xf = 0.0f64;
+    let mut sup_mf = 0.0f64;
     let mut distinct = 0usize;
     let mut i = 0usize;
     let n = fin.len();
@@ -158,10 +179,15 @@ pub fn run_cell(cell: &Cell, seed: u64) -> Option<ExactOutcome> {
         if v.is_finite() && v > sup_xf {
             sup_xf = v;
         }
+        let v2 = (intermediate_magnitude(cell, xf) * pdf(cell, xf)).abs();
+        if v2.is_finite() && v2 > sup_mf {
+            sup_mf = v2;
+        }
         i = j;
     }
     let bound = 2f64.powi(-24) * (1.5 + 8.0 * sup_xf);
-    Some(ExactOutcome { single_draw: true, d, bound, sup_xf, at, distinct_outputs: distinct, bad_outputs: bad })
+    let bound_offset = 2f64.powi(-24) * (1.5 + 8.0 * sup_mf.max(sup_xf));
+    Some(ExactOutcome { single_draw: true, d, bound, sup_xf, bound_offset, at, distinct_outputs: distinct, bad_outputs: bad })
 }
 
 pub fn cells(ctx: &Ctx) -> Vec<Cell> {
@@ -192,6 +218,10 @@ pub fn cells(ctx: &Ctx) -> Vec<Cell> {
             v.push(random_cell(fam, Ft::F32, &mut r));
         }
     }
+    // cells of known finding C13-offset-cancellation (found by the thorough random cells): re-established on every run
+    v.push(Cell::new(Fam::Frechet, Ft::F32, &[-7.220933532714844e1, 7.705432891845703e1, 7.609135437011719e1]));
+    v.push(Cell::new(Fam::Frechet, Ft::F32, &[-4.883855895996094e2, 5.600755004882813e2, 2.7919662475585938e1]));
+    v.push(Cell::new(Fam::Triangular, Ft::F32, &[-1.9048667907714844e1, 1.79744873046875e2, -1.9048667907714844e1]));
     let mut seen = std::collections::HashSet::new();
     v.retain(|c| seen.insert(c.key()));
     v
@@ -214,15 +244,16 @@ pub fn judge(ctx: &Ctx, cell: &Cell, out: &ExactOutcome) {
     }
     ctx.nontrivial(cell.hash64());
     ctx.class(&format!("cells:{}", cell.fam.name()), 1);
-    ctx.sample(cell.hash64(), || json!({"cell": cell.key(), "D_over_bound": out.d / out.bound, "D": out.d, "bound": out.bound, "sup_xf": out.sup_xf, "distinct_outputs": out.distinct_outputs}));
+    ctx.sample(cell.hash64(), || json!({"cell": cell.key(), "D_over_bound": out.d / out.bound, "D": out.d, "bound": out.bound, "bound_offset_aware": out.bound_offset, "sup_xf": out.sup_xf, "distinct_outputs": out.distinct_outputs}));
     if out.d > out.bound {
         ctx.violation(Violation {
             property: ctx.property.clone(),
             family: cell.fam.name(),
             float: "f32".into(),
             symptom: "kolmogorov_bound".into(),
-            trigger: format!("cell:{}", cell.key()),
-            what: format!("{}: exact Kolmogorov distance {:.4e} at x={:e} exceeds 2^-24(1.5+8 sup|xf|) = {:.4e} (sup|xf|={:.3})", cell.key(), out.d, out.at, out.bound, out.sup_xf),
+            // between the stated bound and the offset-aware bound: the class of known finding C13-offset-cancellation
+            trigger: if out.d <= out.bound_offset { "offset_cancellation".to_string() } else { format!("cell:{}", cell.key()) },
+            what: format!("{}: exact Kolmogorov distance {:.4e} at x={:e} exceeds 2^-24(1.5+8 sup|xf|) = {:.4e} (sup|xf|={:.3}; with |x| replaced by the largest operand of the final add/subtract the bound would be {:.4e})", cell.key(), out.d, out.at, out.bound, out.sup_xf, out.bound_offset),
             case: json!({"kind": "exact", "cell": cell}),
         });
     }
